@@ -2,14 +2,14 @@
    ALL kernels, kernel sizes, targets, edge modes, divisors, biases (finite, infinite, NaN), both preserveAlpha values
    and all images - the four window sums are universally quantified binary32 values.  Stated over the SOURCE-DERIVED
    leaf expressions cv_* of Gen/PixelTables.v; proved by monotonicity of binary32 rounding (Flocq) and NaN propagation. *)
+From Coq Require Import Reals Lra.
+From Flocq Require Import Core BinarySingleNaN.
+From Coq Require Import SpecFloat.
 From RV Require Import Model.F32.
 From RV Require Import Gen.PixelTables.
 From RV Require Import Model.Pixel.
 From RV Require Import Proofs.PixelBase.
 From RV Require Import Proofs.PixelArith.
-From Coq Require Import Reals Lra.
-From Flocq Require Import Core BinarySingleNaN.
-From Coq Require Import SpecFloat.
 Local Open Scope Z_scope.
 
 Notation RN := (round radix2 (SpecFloat.fexp 24 128) (round_mode mode_NE)).
@@ -108,7 +108,7 @@ Lemma colour_le_alpha_mul : forall res a : f32, is_finite a = true -> (0 <= B2R 
 Proof.
   intros res a Fa [A0 A1].
   destruct (is_nan res) eqn:N.
-  - apply is_nan_true in N. subst res. rewrite fbound_nan, fmul_nan_l, store2_nan.
+  - apply is_nan_true in N. subst res. rewrite fbound_nan, !fmul_nan_l, fadd_nan_l. cbn [to_u8].
     pose proof (to_u8_byte (fadd (fmul a c255) chalf)) as B. unfold is_byte in B. lia.
   - destruct (alpha_range res N) as [Ft [T0 T1]]. set (t := f32_bound c0 res c1) in *.
     pose proof (Bmult_correct 24 128 Hp24 Hpe24 mode_NE t a) as H. rewrite Ft, Fa in H.
